@@ -20,10 +20,12 @@ import (
 	"context"
 	"fmt"
 	"reflect"
+	"runtime/debug"
 
 	"github.com/cloudwego/eino/callbacks"
 	icb "github.com/cloudwego/eino/internal/callbacks"
 	"github.com/cloudwego/eino/internal/generic"
+	"github.com/cloudwego/eino/internal/safe"
 	"github.com/cloudwego/eino/schema"
 )
 
@@ -170,7 +172,15 @@ func runWithCallbacks[I, O, TOption any](r func(context.Context, I, ...TOption) 
 	return func(ctx context.Context, input I, opts ...TOption) (output O, err error) {
 		ctx, input = onStart(ctx, input)
 
-		output, err = r(ctx, input, opts...)
+		func() {
+			// a panic of the unit ends it like an error does, so that the handlers that heard its start hear its end
+			defer func() {
+				if panicInfo := recover(); panicInfo != nil {
+					err = safe.NewPanicErr(panicInfo, debug.Stack())
+				}
+			}()
+			output, err = r(ctx, input, opts...)
+		}()
 		if err != nil {
 			ctx, err = onError(ctx, err)
 			return output, err
